@@ -215,6 +215,54 @@ def e2e_nontrivial(c):
     return emitted and refused
 
 
+# ----------------------------------------------------------------- (d) listener, several connections
+
+def monitor_listener(c):
+    """the property's own statements on a real listener with several live connections"""
+    if c.get("err"):
+        return "harness: " + c["err"]
+    for i, o in enumerate(c["ops"]):
+        x = o["x"]
+        where = {"own": "its own socket", "fromother": "the address the listener tracks for connection %d" % o["y"],
+                 "fresh": "a brand-new address", "rebind": "a brand-new address"}.get(o["op"])
+        if o["op"] == "unknown":
+            if o["readers"]:
+                return "op %d: a record with an unregistered connection ID was read by connection %s" % (i, o["readers"])
+        else:
+            if any(r != x for r in o["readers"]):
+                return "op %d: record carrying the ID of connection %d read by connection %s" % (i, x, o["readers"])
+            if o["readers"] != [x]:
+                return ("op %d: record carrying the connection ID of connection %d, sent from %s, was not "
+                        "delivered to connection %d" % (i, x, where, x))
+        for k, ra in enumerate(o["raddrs"]):
+            if k == x:
+                if ra not in o["valid"]:
+                    return "op %d: RemoteAddr() of connection %d is %s, which never answered a challenge" % (i, k, ra)
+            elif ra != c["addrs"][k] and o["op"] != "own":
+                pass  # other connections may still be migrating back after their own rebinding
+        if o["op"] == "rebind" and not o["rebound"]:
+            return "op %d: path validated from the new address but RemoteAddr() did not follow (%s)" % (
+                i, o.get("note") or "no note")
+    if c["dups"]:
+        return "%d payloads were read more than once" % c["dups"]
+    return None
+
+
+def listener_terms(c):
+    def sbytes(x):
+        return clist(["%d" % b for b in x.encode()])
+    table = ["(%s, %d)" % (hexlist(cid), k) for k, cid in enumerate(c["cids"])]
+    # tracked source addresses (a connection keeps its entry until it writes elsewhere; irrelevant
+    # for records whose ID is registered - that is the theorem - and harmless for the others)
+    table += ["(%s, %d)" % (sbytes(a), k) for k, a in enumerate(c["addrs"])]
+    out = []
+    for o in c["ops"]:
+        owner = 99 if o["op"] == "unknown" else o["x"]
+        obs = "None" if o["reader"] < 0 else "(Some %d)" % o["reader"]
+        out.append("(%s, %s, %s, %d, %s)" % (clist(table), sbytes(o["src"]), hexlist(o["cid"]), owner, obs))
+    return out
+
+
 def fill_dumps(c):
     last = []
     for o in c["ops"]:
@@ -382,6 +430,63 @@ def run(chk):
                                       for c in nt], samples=nt[-2:])
         chk.leg_info("router", found=sum(1 for c in rt if c["found"]), unsplittable=sum(1 for c in rt if c["bad"]))
 
+    # ---------------- (d) listener with several live connections (real loopback sockets, real time)
+    out_l = vlib.out_path("c15l")
+    rc, o = vlib.go_test(".", "^TestVerifC15Listener$", dict(env, VERIF_OUT=out_l), timeout=900, tags=["c15"])
+    lst = vlib.read_jsonl(out_l)
+    vlib.cleanup(out_l)
+    if rc != 0:
+        kind = vlib.classify_go_failure(o)
+        if kind == "panic":
+            chk.finding("internal/net/udp/packet_conn.go getConn", {"monitor": "panic", "test": "TestVerifC15Listener"},
+                        "panic in listener harness", {"output": o[-3000:]})
+            found_input = True
+        else:
+            chk.broken("correspondence harness TestVerifC15Listener no longer runs against /repo (%s)" % kind, o)
+    how_l = ("listenWithConfig on 127.0.0.1 with RandomCIDGenerator(8); clients 0..n-1 each on their own UDP socket "
+             "(`addrs`), server connection IDs `cids`; each op sends one fresh application record made with client "
+             "x's keys to the listener from socket `src` (own = x's socket, fromother = client y's socket, "
+             "fresh/rebind = new socket, unknown = connection ID altered); `readers` = server connections whose "
+             "Read returned the payload, `raddrs` = RemoteAddr() of every server connection afterwards")
+    for c in lst:
+        m = monitor_listener(c)
+        if m:
+            found_input = True
+            chk.finding("internal/net/udp/packet_conn.go listener.getConn",
+                        {"monitor": " ".join(m.split(": ", 1)[-1].split(" ")[0:6]), "variant": c["variant"]}, m,
+                        {"how": how_l, "case": c,
+                         "rerun": "VERIF_SEED=%d bin/check C15 --tier %s" % (chk.seed, chk.tier)})
+            break
+    if ok_model and lst:
+        usable = [c for c in lst if not c.get("err")]
+        terms, owners = [], []
+        for ci, c in enumerate(usable):
+            for t in listener_terms(c):
+                terms.append(t)
+                owners.append(ci)
+        bad, err = vlib.coq_mismatches("c15l", IMPORTS, "listener_case", "listener_ok", terms, shard=60)
+        if bad is None:
+            chk.broken("correspondence evaluation (listener) failed in coqc", err)
+        else:
+            for i in bad[:1]:
+                c = usable[owners[i]]
+                m = monitor_listener(c)
+                chk.finding("internal/net/udp/packet_conn.go listener.getConn",
+                            {"monitor": "model-mismatch", "variant": c["variant"]},
+                            "routing decision differs from Rrc/C15Router.v get_conn_id" + (": " + m if m else ""),
+                            {"how": how_l, "case": c, "correspondence": "Rrc.C15Run.listener_ok"},
+                            no_input=(m is None and not found_input))
+        nt = [c for c in usable if any(o["op"] == "fromother" for o in c["ops"])]
+        chk.count("listener", len(terms), [(c["variant"], len(c["cids"]), tuple((o["op"], o["x"], o["y"]) for o in c["ops"]))
+                                           for c in nt],
+                  samples=[{"variant": c["variant"], "ops": [(o["op"], o["x"], o["y"], o["reader"]) for o in c["ops"]][:12]}
+                           for c in nt[-2:]])
+        chk.cov["traces_validated_against_impl"] += len(lst)
+        chk.leg_info("listener", listeners=len(lst),
+                     from_other_connections_address=sum(1 for c in lst for o in c["ops"] if o["op"] == "fromother"),
+                     rebinds=sum(1 for c in lst for o in c["ops"] if o["op"] == "rebind" and o["rebound"]),
+                     unknown_id=sum(1 for c in lst for o in c["ops"] if o["op"] == "unknown"))
+
     if not proved:
         where, out = getattr(chk, "proof_error", ("?", ""))
         if not found_input:
@@ -397,7 +502,11 @@ def run(chk):
              "stale records, two candidates, late/misdirected/stale responses, altered or missing connection IDs; "
              "non-trivial = at least one RRC record emitted and one record from a non-active address that caused "
              "none; distinct by configuration and full script. router: generated record lists incl. bad versions and "
-             "truncation; non-trivial = an ID found behind at least one skipped record.",
+             "truncation; non-trivial = an ID found behind at least one skipped record. listener: real listenWithConfig "
+             "over loopback UDP, 2-3 clients, fresh records of connection x sent from its own socket / another live "
+             "client's socket / a new socket (with and without answering the challenge) / with an altered ID, every "
+             "session pinged after every op; one evaluation per routed record; non-trivial = contains a record sent "
+             "from another live connection's address.",
         assumptions=[
             "an ERecord event of Rrc/C15Conn.v is a record for which conn.go prepareIncomingPacket succeeded; that only "
             "the key holder can produce such records is C05 (AEAD) and not re-proved here",
@@ -408,8 +517,10 @@ def run(chk):
             "time is an explicit clock argument; the per-path AfterFunc callback is an explicit operation that may run at "
             "any time (theorems hold for every scheduling); synctest runs callbacks exactly at expiry, which is what the "
             "harness compares against",
-            "listener.getConn is modelled structurally (Rrc/C15Router.v get_conn) and only cidDatagramRouter (DTLS 1.2 "
-            "branch) is tied to the implementation; the loopback-UDP listener leg of DESIGN.md is not implemented",
+            "listener.getConn's lookup order (routed ID first, then source address) is Rrc/C15Router.v get_conn_id, tied "
+            "to a real loopback listener with 2-3 live connections (DTLS 1.2 and 1.3) through who Reads each record; "
+            "cidDatagramRouter's DTLS 1.2 branch is tied byte-level, the 1.3 branch only through that listener leg; the "
+            "accept path for new addresses is not modelled",
             "end-to-end classification of records opens them with the receiver's own keys/functions in-package "
             "(CipherSuite.Decrypt, openCiphertextRecord), which are read-only",
         ])
